@@ -61,6 +61,14 @@ func genHist(t *rapid.T) Hist {
 		Sym:     rapid.SampledFrom([]int{1, 1, 2, 2, 3, 4}).Draw(t, "sym"),
 		DataLen: rapid.SampledFrom([]int{1, 2, 16, 33, 100, 100, 255, 1000}).Draw(t, "datalen"),
 	}
+	// a keystore with one kind of poison key only (what acra-poisonrecordmaker leaves behind on a fresh keystore,
+	// or a destroyed poison key): records of the kind that exists must still raise the alarm
+	switch rapid.SampledFrom([]string{"", "", "", "", "pair-only", "sym-only"}).Draw(t, "only") {
+	case "pair-only":
+		h.Sym = 0
+	case "sym-only":
+		h.Pair = 0
+	}
 	if rapid.IntRange(0, 3).Draw(t, "destroys") == 0 {
 		n := rapid.IntRange(1, 2).Draw(t, "ndestroy")
 		for i := 0; i < n; i++ {
@@ -452,6 +460,15 @@ func (e *env) render(ps []Piece) (r rendered, err error) {
 				}
 				r.classes = append(r.classes, "neg:foreign-keystore")
 			} else {
+				if len(e.recs[kind]) == 0 {
+					// the keystore has no poison key of this kind: take the kind it has
+					if kind == fix.KindStruct {
+						kind = fix.KindBlock
+					} else {
+						kind = fix.KindStruct
+					}
+					r.classes = append(r.classes, "keystore:one-kind-of-poison-key")
+				}
 				g = p.Gen % len(e.recs[kind])
 				if p.Dead {
 					for i := range e.alive[kind] {
